@@ -65,7 +65,8 @@ class LspSession:
         return out
 
     def initialize(self, root=None):
-        rid = self.request('initialize', {'processId': None, 'rootUri': None, 'capabilities': {}, 'workspaceFolders': None})
+        folders = [{'uri': 'file://' + root, 'name': 'ws'}] if root else None
+        rid = self.request('initialize', {'processId': None, 'rootUri': ('file://' + root) if root else None, 'capabilities': {}, 'workspaceFolders': folders})
         r = self.wait_for(lambda m: m.get('id') == rid)
         self.notify('initialized', {})
         return r
